@@ -196,12 +196,12 @@ theorem ids_iff_cores (b : Block) (id : Nat) : id ∈ b.ids ↔ ∃ c ∈ b.core
     · rw [← hcid, h]; exact List.mem_cons_self ..
     · exact List.mem_cons_of_mem _ (List.mem_map.2 ⟨c, h, hcid⟩)
 
-/-- the exact meaning of `ExistTxs` in a reachable state, in terms of the chain the code walks -/
-theorem exist_spec {g : Guard} {U : List Block} {K : List Nat} {T : Nat} (inv : Inv g U K T) (tree : TreeOK U)
+/-- the exact meaning of `ExistTxs` in a reachable state, in terms of the chain the code walks and of
+    the tracer: true iff some block of the walked chain is traced for one of the queried hashes -/
+theorem exist_tracer {g : Guard} {U : List Block} {K : List Nat} {T : Nat} (inv : Inv g U K T) (tree : TreeOK U)
     {pb : Block} (hpb : pb ∈ g.cache) (txs : List Tx) :
     ∃ r, g.existTxs pb.hash txs = .ok r ∧
-      (r = true → ∃ a, CAnc g.cache pb a ∧ ∃ id ∈ idsOf txs, id ∈ a.ids) ∧
-      ((∃ a, CAnc g.cache pb a ∧ ∃ id ∈ idsOf txs, id ∈ a.ids ∧ id ∉ K) → r = true) := by
+      (r = true ↔ ∃ a, CAnc g.cache pb a ∧ ∃ id ∈ idsOf txs, (id, a.hash) ∈ g.tracer) := by
   have hsub : ∀ x ∈ g.cache, x ∈ U := fun x hx => ((inv.cacheIff x).1 hx).1
   have hlink : ∀ b ∈ g.cache, ∀ p, cacheGet g.cache b.parent = some p → p.height < b.height ∧ p.hash < b.hash := by
     intro b hb p hg
@@ -213,16 +213,12 @@ theorem exist_spec {g : Guard} {U : List Block} {K : List Nat} {T : Nat} (inv : 
   generalize htr : loadTraces g.tracer txs = trace
   have htrace : ∀ h, h ∈ trace ↔ ∃ id ∈ idsOf txs, (id, h) ∈ g.tracer := by
     intro h; rw [← htr]; exact mem_loadTraces
-  -- a witness of the completeness direction is traced
-  have hwit : ∀ a, CAnc g.cache pb a → ∀ id ∈ idsOf txs, id ∈ a.ids → id ∉ K → a.hash ∈ trace := by
-    intro a hca id hid hida hk
-    exact (htrace _).2 ⟨id, hid, inv.trComplete a (canc_mem hca hpb) id hida hk⟩
   cases hemp : trace.isEmpty with
   | true =>
     simp only [if_true]
     refine ⟨false, rfl, fun h => (by cases h), ?_⟩
-    rintro ⟨a, hca, id, hid, hida, hk⟩
-    have := hwit a hca id hid hida hk
+    rintro ⟨a, _, id, hid, hp⟩
+    have := (htrace a.hash).2 ⟨id, hid, hp⟩
     rw [List.isEmpty_iff.1 hemp] at this
     cases this
   | false =>
@@ -268,17 +264,31 @@ theorem exist_spec {g : Guard} {U : List Block} {K : List Nat} {T : Nat} (inv : 
       have hht' : h ∈ trace := List.contains_iff_mem.1 hht
       obtain ⟨a, hca, hah, _, _⟩ := (hspec' h).1 hhl
       obtain ⟨id, hid, hp⟩ := (htrace h).1 hht'
-      obtain ⟨b, hb, hbh, hbid⟩ := inv.trSound id h hp
-      have : b = a := inv.cacheFun b hb a (canc_mem hca hpb) (by rw [hbh, hah])
-      exact ⟨a, hca, id, hid, this ▸ hbid⟩
-    · rintro ⟨a, hca, id, hid, hida, hk⟩
-      have hat := hwit a hca id hid hida hk
+      exact ⟨a, hca, id, hid, by rw [hah]; exact hp⟩
+    · rintro ⟨a, hca, id, hid, hp⟩
+      have hat : a.hash ∈ trace := (htrace _).2 ⟨id, hid, hp⟩
       obtain ⟨b, hb, hbh⟩ := hcov _ hat
       have hba : b = a := inv.cacheFun b (hbsin b hb) a (canc_mem hca hpb) hbh
       have hr := hrange b hb
       rw [hba] at hr
       apply List.any_eq_true.2
       exact ⟨a.hash, (hspec' _).2 ⟨a, hca, rfl, hr.1, hr.2⟩, List.contains_iff_mem.2 hat⟩
+
+/-- in terms of block contents: sound always, complete for hashes that were never in a dropped block -/
+theorem exist_spec {g : Guard} {U : List Block} {K : List Nat} {T : Nat} (inv : Inv g U K T) (tree : TreeOK U)
+    {pb : Block} (hpb : pb ∈ g.cache) (txs : List Tx) :
+    ∃ r, g.existTxs pb.hash txs = .ok r ∧
+      (r = true → ∃ a, CAnc g.cache pb a ∧ ∃ id ∈ idsOf txs, id ∈ a.ids) ∧
+      ((∃ a, CAnc g.cache pb a ∧ ∃ id ∈ idsOf txs, id ∈ a.ids ∧ id ∉ K) → r = true) := by
+  obtain ⟨r, hr, hiff⟩ := exist_tracer inv tree hpb txs
+  refine ⟨r, hr, ?_, ?_⟩
+  · intro h
+    obtain ⟨a, hca, id, hid, hp⟩ := hiff.1 h
+    obtain ⟨b, hb, hbh, hbid⟩ := inv.trSound id a.hash hp
+    have : b = a := inv.cacheFun b hb a (canc_mem hca hpb) hbh
+    exact ⟨a, hca, id, hid, this ▸ hbid⟩
+  · rintro ⟨a, hca, id, hid, hida, hk⟩
+    exact hiff.2 ⟨a, hca, id, hid, inv.trComplete a (canc_mem hca hpb) id hida hk⟩
 
 /-- cache chain = abstract ancestors that are still cached -/
 theorem canc_to_anc {g : Guard} {U : List Block} {K : List Nat} {T : Nat} (inv : Inv g U K T)
